@@ -56,7 +56,7 @@ func H_C05_primev_commitment() {
 	m := vfLen("ntxhashes", vfParam("list", 2))
 	c := &p2pmsg.Commitment{InstanceId: vfU64("instance"), BlockNumber: vfI64("blocknumber"),
 		ProviderAddress: vfAtom("provider"), CommitmentSignature: vfAtom("csig"), CommitmentDigest: vfAtom("cdigest"),
-		ReceivedBidDigest: vfAtom("biddigest"), ReceivedBidSignature: vfAtom("bidsig")}
+		ReceivedBidDigest: vfAtom("biddigest"), ReceivedBidSignature: string(vfBytes("bidsig", 134))}
 	for i := 0; i < n; i++ {
 		c.Identities = append(c.Identities, vfAtom("identity"))
 	}
